@@ -140,6 +140,22 @@ def observe(u, t, tcase, V, a, si, full=False):
         ref = np.vdot(psi.reshape(-1), u.dense_op["H"] @ psi.reshape(-1))
         if abs(e - ref) > TOL * (abs(ref) + nrm ** 2 * np.linalg.norm(u.dense_op["H"]) + 1e-30):
             V(f"C11:observe:expectation:{a}", f"expectation(H) = {e} but dense gives {ref}", si)
+        # the library's own dense conversion: explicit order of the physical sets, and the default order
+        try:
+            got = np.asarray(t.todense(list(u.basis))).reshape(psi.shape)
+            if np.linalg.norm(got - psi) > TOL * (nrm + 1):
+                V(f"C11:observe:todense:explicit-order:{a}", f"TTNS.todense(order) differs from the contraction of the node tensors by {np.linalg.norm(got - psi):.2e}", si)
+        except Exception as ex:
+            V(f"C11:observe:todense:explicit-order-raises:{type(ex).__name__}", f"TTNS.todense(order) raised {type(ex).__name__}: {ex}", si)
+        try:
+            got = np.asarray(t.todense())
+            dflt = [b for b in t.basis.basis_list if b.__class__.__name__ != "BasisDummy"]
+            ref_d = trees.dense(t, order=dflt) / t.coeff
+            if got.size != ref_d.size or np.linalg.norm(got.reshape(ref_d.shape) - ref_d) > TOL * (nrm + 1):
+                V(f"C11:observe:todense:default-order:{a}", "TTNS.todense() differs from the contraction of the node tensors in the tree's own basis order", si)
+        except Exception as ex:
+            has_dummy = any(b.__class__.__name__ == "BasisDummy" for b in t.basis.basis_list)
+            V(f"C11:observe:todense:default-order-raises:{'dummy-nodes' if has_dummy else 'plain'}:{type(ex).__name__}", f"TTNS.todense() with the default order raised {type(ex).__name__}: {ex}", si)
         if not full or nrm < 1e-12:
             return
         psin = psi / nrm
